@@ -33,6 +33,8 @@ pub trait EfiIter {
     fn size_hint_(&self) -> (usize, Option<usize>);
     fn clone_(&self) -> Box<dyn EfiIter>;
     fn dbg_(&self) -> String;
+    fn nth_(&mut self, n: usize) -> Option<&'static multiboot2::EFIMemoryDesc>;
+    fn count_(&self) -> usize;
 }
 
 impl<T> EfiIter for T
@@ -53,6 +55,12 @@ where
     }
     fn dbg_(&self) -> String {
         format!("{self:?}")
+    }
+    fn nth_(&mut self, n: usize) -> Option<&'static multiboot2::EFIMemoryDesc> {
+        self.nth(n)
+    }
+    fn count_(&self) -> usize {
+        self.clone().count()
     }
 }
 
